@@ -298,7 +298,8 @@ PLANS = {
         "require_counters": ["c08.sched.x_solve_finished_first", "c08.sched.y_solve_finished_first"],
         "runs": [R("h_global", "asan", "c08.pure", 600, 3000), R("h_global", "asan", "c08.sched", 160, 800),
                  R("h_global", "tsan", "c08.sched.light", 96, 600), R("h_global", "tsan", "c08.pure", 64, 300),
-                 R("h_global", "fast", "c08.pure", 0, 10000), R("h_global", "fast", "c08.sched", 0, 1500)],
+                 R("h_global", "fast", "c08.pure", 0, 10000), R("h_global", "fast", "c08.sched", 0, 1500),
+                 R("h_global", "asan", "c08.history", 600, 3000), R("h_global", "fast", "c08.history", 0, 12000)],
     },
 }
 
